@@ -28,6 +28,7 @@ mod ops_cm;
 mod ops_scan;
 mod ops_strleaf;
 mod ops_c06;
+mod ops_inlines;
 
 pub const COMPONENTS: &[fn(&str, &[String]) -> Option<String>] = &[
     ops_anchors::dispatch,
@@ -41,6 +42,7 @@ pub const COMPONENTS: &[fn(&str, &[String]) -> Option<String>] = &[
     ops_cm::dispatch,
     ops_scan::dispatch,
     ops_strleaf::dispatch,
+    ops_inlines::dispatch,
 ];
 
 #[allow(dead_code)]
